@@ -105,3 +105,13 @@ Definition c12_copy_model (stream : bytes) (sched : list Z) (eofw : bool) (bufsz
 
 Definition c12_copy_spec (payload : bytes) (impl_bytes : bytes) : list bytes :=
   expect (beq impl_bytes payload) "decoded-differs-from-payload".
+
+(* C16 ----------------------------------------------------------------------- *)
+From GF Require Import Model.Routing.
+Definition c16_model (mode : host_mode) (host path lb lk : bytes) (rb rk : list bytes) : list bytes :=
+  let '(b, o) := route mode host path in
+  expect (beq b lb && beq o lk) "model-route-differs-from-logical-address" ++
+  expect (forallb (beq b) rb) "backend-bucket" ++ expect (forallb (beq o) rk) "backend-key".
+Definition c16_spec (lb lk : bytes) (same : bool) (rb rk : list bytes) : list bytes :=
+  expect same "answer-differs-from-path-style" ++
+  expect (forallb (beq lb) rb) "wrong-bucket-addressed" ++ expect (forallb (beq lk) rk) "wrong-key-addressed".
